@@ -258,6 +258,18 @@ Theorem C03_tree_ascii_latex : forall (F : Type) (E : efmt) (L : lfmt) (t : ster
 Proof. exact agree_term_plain. Qed.
 Print Assumptions C03_tree_ascii_latex.
 
+(* C09 for both pipelines: two writings that differ only in the numbers of spaces at the token boundaries
+   (same_shape: equal spacing-free skeletons; any numbers, independently at every boundary) *)
+Theorem C09_both_pipelines_ascii_latex : forall (F : Type) (E : efmt) (L : lfmt) (t1 t2 : sterm) (v : term),
+  (E = FORMAT_ASCII /\ L = LEX_ASCII) \/ (E = FORMAT_LATEX /\ L = LEX_LATEX) ->
+  same_shape t1 t2 -> odesugar t1 = Some v -> satoms_ok std_alnum E t1 = true ->
+  of_door F (parse_term F std_alnum E (new_state F (render E t1))) = FOk v /\
+  of_door F (parse_term F std_alnum E (new_state F (render E t2))) = FOk v /\
+  lex_then_fold std_alnum L E (render E t1) = FOk v /\
+  lex_then_fold std_alnum L E (render E t2) = FOk v.
+Proof. exact respacing_both_pipelines_plain. Qed.
+Print Assumptions C09_both_pipelines_ascii_latex.
+
 (* C09, lexical pipeline: any text with the same whitespace-free form (any Unicode White_Space anywhere) *)
 Theorem C09_lex_any_text_ascii_latex : forall (E : efmt) (L : lfmt) (t : sterm) (v : term) (s : str),
   (E = FORMAT_ASCII /\ L = LEX_ASCII) \/ (E = FORMAT_LATEX /\ L = LEX_LATEX) ->
